@@ -86,6 +86,11 @@ def dec(c):
             hs = [href() for _ in range(n)]
             vals = c[p:p + n * len(ts)]; p += n * len(ts)
             ops.append("column_batch_at w%d %s %s %s" % (w, ts, hs, vals))
+        elif o == 90:
+            a = c[p:p + 3]; p += 3
+            n = c[p]; p += 1; ast = c[p:p + n]; p += n
+            nm = c[p]; p += 1; muts = c[p:p + 3 * nm]; p += 3 * nm
+            ops.append("serde w%d fmt=%d reader=%d q#%d muts=%s" % (w, a[0], a[1], a[2], muts))
         elif o == 30:
             qi, path, arg, n = c[p], c[p + 1], c[p + 2], c[p + 3]; p += 4
             ast = c[p:p + n]; p += n
